@@ -841,7 +841,7 @@ def main(tier):
         raise core.Inconclusive("C11 needs root (qmail-lspawn switches users)")
     b = build.vbuild("asan")
     ntab = core.scaled(48000 if tier == "quick" else 1600000)
-    ncase = core.scaled(1500 if tier == "quick" else 30000)
+    ncase = core.scaled(1500 if tier == "quick" else 24000)
     harness_problem = None
     try:
         hc = b.compile_harness(os.path.join(core.VERIF, "harness/h_cdb.c"), extra_objs=CDB_OBJS)
